@@ -197,6 +197,19 @@ func (k *c20Run) outcome(fn string, resultNil bool, err error) (accepted bool) {
 			case "character":
 				rn, _ := utf8.DecodeRune(rest)
 				ok = len(rest) > 0 && strings.HasSuffix(msg, fmt.Sprintf("%#q", rn))
+			case "after-closing-paren":
+				// the complaint is about what follows a `)` that closes a block: the position is on that
+				// (logical) line, behind the parenthesis and the first thing after it
+				head := k.in[:min(e.Pos.Byte, len(k.in))]
+				ok = false
+				for j := bytes.LastIndexByte(head, ')'); j >= 0 && !ok; j = bytes.LastIndexByte(head[:j], ')') {
+					seg := head[j+1:]
+					seg = bytes.ReplaceAll(bytes.ReplaceAll(seg, []byte("\\\r\n"), nil), []byte("\\\n"), nil) // escaped newlines are white space
+					if bytes.IndexByte(seg, '\n') >= 0 {
+						break // that parenthesis is on an earlier line
+					}
+					ok = len(bytes.TrimSpace(seg)) > 0
+				}
 			}
 			if !ok {
 				k.viol("error-position-not-at-what-it-describes", map[string]any{"fn": fn, "err": e.Error(), "byte": e.Pos.Byte, "text_there": c02Trunc(rest[:min(len(rest), 12)])})
@@ -222,6 +235,8 @@ func c20LexAnchor(msg string) string {
 		return "string-start"
 	case strings.HasPrefix(msg, "unexpected input character "):
 		return "character"
+	case msg == "syntax error (expected newline after closing paren)":
+		return "after-closing-paren"
 	}
 	return ""
 }
